@@ -127,6 +127,11 @@ class Tmatrix(ScatteringTheory):
         # FIXME: Why does the incident polarization have to be set to  (1, 0)?
         thet0 = 0
         thet = angles[:, 0]
+        if (thet < 0).any() or (thet > 180).any():
+            # ampld stops the interpreter for scattering angles outside
+            # [0, 180] degrees
+            raise ValueError("Tmatrix needs polar scattering angles " +
+                             "between 0 and pi")
         phi0 = 0
         phi = angles[:, 1] % 360
         nang = angles.shape[0]
